@@ -287,6 +287,19 @@ def main(pid, tier):
                 for kw in ('ReferencedImageSequence', 'SourceImageSequence', 'EchoTime'):
                     if kw in res:
                         fails.append(('custom_rule', 'a user ignore rule for %s was not honoured' % kw))
+            # the key is the keyword / camel-cased name itself; a tag suffix only disambiguates a clash between extracted
+            # elements, so a suffixed key never stands alone
+            import re as _re
+            bases = {}
+            for k in std_keys:
+                m_ = _re.match(r'^(.*)_0X[0-9A-F]+_0X[0-9A-F]+$', k)
+                if m_:
+                    bases.setdefault(m_.group(1), []).append(k)
+            for b_, ks_ in bases.items():
+                if len(ks_) < 2:
+                    fails.append(('needless_suffix', 'key %s carries a tag suffix although no other extracted element is named %s'
+                                  % (ks_[0], b_)))
+                    break
             if len(set(res.keys())) != len(res):
                 fails.append(('keys', 'duplicate keys'))
             for sig, f in fails[:2]:
